@@ -131,6 +131,9 @@ func (r *Report) Finish() int {
 		keys = append(keys, k)
 	}
 	sort.Strings(keys)
+	if r.Extra != nil {
+		r.Extra["watchdog_calls_finished_in_grace_period"] = watchdogGrace
+	}
 	res := map[string]interface{}{
 		"property_id":              r.Property,
 		"tier":                     r.Tier,
